@@ -82,14 +82,27 @@ Proof.
   - discriminate.
 Qed.
 
+(* TLParamsLocked: written through its register or as a host-side variable *)
+Lemma tl_since_snoc b p x : tl_since b p -> ~ tl_write (negb b) x -> tl_since b (p ++ [x]).
+Proof.
+  intros (p1 & e & p2 & -> & He & Hn) Hx. exists p1, e, (p2 ++ [x]). split.
+  - rewrite <- app_assoc. reflexivity.
+  - split; [exact He|]. intros e' Hin. apply in_app_iff in Hin as [Hin|[<-|[]]]; [apply Hn; exact Hin|exact Hx].
+Qed.
+
+Lemma tl_since_here b p e : tl_write b e -> tl_since b (p ++ [e]).
+Proof. intros He. exists p, e, []. split; [reflexivity|]. split; [exact He|intros e' []]. Qed.
+
+Ltac not_tl := let H := fresh in intros [H|H]; discriminate H.
+
 Lemma locked_since p :
-  d_locked (replay p) = true -> since (SetTLParamsLocked true) (SetTLParamsLocked false) p.
+  d_locked (replay p) = true -> tl_since true p.
 Proof.
   unfold replay. induction p as [|x p IH] using rev_ind; [discriminate|].
   rewrite replay_from_app. cbn [replay_from fold_left].
   destruct x; cbn [dstep d_locked]; intros H;
-    try (apply since_snoc; [apply IH; exact H|discriminate]).
-  subst b. apply since_here.
+    try (apply tl_since_snoc; [apply IH; exact H|not_tl]);
+    subst b; apply tl_since_here; [left|right]; reflexivity.
 Qed.
 
 Lemma acq_since p :
@@ -168,17 +181,17 @@ Ltac mstep :=
 
 Ltac open_call c s :=
   unfold run_call;
-  destruct s as [oc os cx en tl aq lr tc bk];
-  destruct c as [|[xp xt xs xq xy]|cap| | | |kb|kp vp];
-  try (destruct cx as [[nt ns np ny ct cs cp cy cb]|]);
-  cbv [call_body cam_open cam_load cam_start cam_stop cam_close cam_params cam_bank cam_poke params_ctxt
+  destruct s as [oc os cx en tl aq lr tc bk tf];
+  destruct c as [|[xp xt xs xq xy xh xz]|cap| | | |kb|kp vp|uv];
+  try (destruct cx as [[nt ns np ny nz ct cs cp cy cb ht]|]);
+  cbv [call_body cam_open cam_load cam_start cam_stop cam_close cam_params cam_bank cam_poke cam_user params_ctxt
        bindM get need ret fail panic do_op emit ctxt_loaded].
 
 Ltac open_state s :=
   unfold run_call;
-  destruct s as [oc os cx en tl aq lr tc bk];
-  try (destruct cx as [[nt ns np ny ct cs cp cy cb]|]);
-  cbv [call_body cam_open cam_load cam_start cam_stop cam_close cam_params cam_bank cam_poke params_ctxt
+  destruct s as [oc os cx en tl aq lr tc bk tf];
+  try (destruct cx as [[nt ns np ny nz ct cs cp cy cb ht]|]);
+  cbv [call_body cam_open cam_load cam_start cam_stop cam_close cam_params cam_bank cam_poke cam_user params_ctxt
        bindM get need ret fail panic do_op emit ctxt_loaded].
 
 Ltac crunch := repeat mstep; cbn -[Z.eqb Z.b2z].
@@ -196,11 +209,11 @@ Proof. open_call c s; crunch; reflexivity. Qed.
 (* C: a running loop implies the streaming configuration and a loaded context *)
 Definition Inv (s : cam) : Prop :=
   loop_running s = true ->
-  stream_enabled s = true /\ tl_locked s = true /\ acquiring s = true /\ ctxt_loaded s = true.
+  stream_enabled s = true /\ tl_feat s = true /\ acquiring s = true /\ ctxt_loaded s = true.
 
 Lemma call_inv fx c pl s : Inv s -> Inv (r_cam (run_call fx c pl s)).
 Proof.
-  unfold Inv. open_call c s; cbn [loop_running stream_enabled tl_locked acquiring ctxt];
+  unfold Inv. open_call c s; cbn [loop_running stream_enabled tl_feat acquiring ctxt];
     intros H; crunch; cbn in *; try (intros; discriminate); try tauto;
     try (intros Hl; specialize (H Hl); tauto); intros; repeat split; try reflexivity; tauto.
 Qed.
@@ -208,7 +221,7 @@ Qed.
 Lemma call_sc fx c pl s :
   Inv s -> sc_check (dev_of s) (r_effs (run_call fx c pl s)) = true.
 Proof.
-  unfold Inv. open_call c s; cbn [loop_running stream_enabled tl_locked acquiring ctxt];
+  unfold Inv. open_call c s; cbn [loop_running stream_enabled tl_feat acquiring ctxt];
     intros H; crunch; try reflexivity;
     unfold sc_b; cbn;
     try (destruct lr; cbn; [destruct H as (-> & -> & -> & _); reflexivity|reflexivity]);
@@ -271,7 +284,7 @@ Qed.
 
 Lemma inv_sc_b s : Inv s -> sc_b (dev_of s) = true.
 Proof.
-  unfold Inv, sc_b. destruct s as [oc os cx en tl aq lr tc bk]. cbn. destruct lr; [|reflexivity].
+  unfold Inv, sc_b. destruct s as [oc os cx en tl aq lr tc bk tf]. cbn. destruct lr; [|reflexivity].
   intros H. destruct (H eq_refl) as (-> & -> & -> & _). reflexivity.
 Qed.
 
@@ -305,48 +318,45 @@ Proof.
 Qed.
 
 Lemma not_locked_after_clear p :
-  d_locked (replay p) = false -> In (SetTLParamsLocked true) p ->
-  since (SetTLParamsLocked false) (SetTLParamsLocked true) p.
+  d_locked (replay p) = false -> (exists e, In e p /\ tl_write true e) -> tl_since false p.
 Proof.
-  unfold replay. induction p as [|x p IH] using rev_ind; [intros _ []|].
-  rewrite replay_from_app, in_app_iff. cbn [replay_from fold_left].
-  destruct x; cbn [dstep d_locked]; intros H Hin;
-    try (apply since_snoc; [apply IH; [exact H|destruct Hin as [Hin|[Hin|[]]]; [exact Hin|discriminate]]
-                           |discriminate]).
-  subst b. apply since_here.
+  unfold replay. induction p as [|x p IH] using rev_ind; [intros _ (e & [] & _)|].
+  rewrite replay_from_app. cbn [replay_from fold_left].
+  destruct x; cbn [dstep d_locked]; intros H (e & Hin & He);
+    try (apply tl_since_snoc; [apply IH; [exact H|]|not_tl];
+         apply in_app_iff in Hin as [Hin|[<-|[]]]; [exists e; split; assumption|destruct He as [He|He]; discriminate He]);
+    subst b; apply tl_since_here; [left|right]; reflexivity.
 Qed.
 
 (* the same ordering, read as "happened before and not undone since" *)
 Theorem order_before fx pl cs p q :
   (trace_of (run fx pl cs) = p ++ AcqStart :: q ->
-     since EnableStreaming DisableStreaming p /\
-     since (SetTLParamsLocked true) (SetTLParamsLocked false) p) /\
+     since EnableStreaming DisableStreaming p /\ tl_since true p) /\
   (trace_of (run fx pl cs) = p ++ LoopStart :: q ->
-     since EnableStreaming DisableStreaming p /\
-     since (SetTLParamsLocked true) (SetTLParamsLocked false) p /\
+     since EnableStreaming DisableStreaming p /\ tl_since true p /\
      since AcqStart AcqStop p /\
      (In LoopStart p -> since LoopStop LoopStart p)) /\
   (trace_of (run fx pl cs) = p ++ AcqStop :: q ->
      In LoopStart p -> since LoopStop LoopStart p) /\
-  (trace_of (run fx pl cs) = p ++ SetTLParamsLocked false :: q ->
+  (forall e, tl_write false e -> trace_of (run fx pl cs) = p ++ e :: q ->
      (In LoopStart p -> since LoopStop LoopStart p) /\
      (In AcqStart p -> since AcqStop AcqStart p)) /\
   (trace_of (run fx pl cs) = p ++ DisableStreaming :: q ->
      (In LoopStart p -> since LoopStop LoopStart p) /\
      (In AcqStart p -> since AcqStop AcqStart p) /\
-     (In (SetTLParamsLocked true) p ->
-        since (SetTLParamsLocked false) (SetTLParamsLocked true) p)).
+     ((exists e, In e p /\ tl_write true e) -> tl_since false p)).
 Proof.
   pose proof (order fx pl cs) as H. unfold proto_ok, proto_ok_from in H.
   assert (K : forall e, trace_of (run fx pl cs) = p ++ e :: q -> allowed (replay p) e = true)
     by (intros e E; exact (H _ _ _ E)).
-  split; [|split; [|split; [|split]]]; intros E; apply K in E; cbn [allowed] in E;
+  split; [|split; [|split; [|split]]]; [| | |intros e [->| ->]|]; intros E; apply K in E; cbn [allowed] in E;
     rewrite ?andb_true_iff, ?negb_true_iff in E.
   - split; [apply enabled_since|apply locked_since]; tauto.
   - split; [apply enabled_since; tauto|].
     split; [apply locked_since; tauto|].
     split; [apply acq_since; tauto|apply not_alive_after_stop; tauto].
   - apply not_alive_after_stop; tauto.
+  - split; [apply not_alive_after_stop|apply not_acq_after_stop]; tauto.
   - split; [apply not_alive_after_stop|apply not_acq_after_stop]; tauto.
   - split; [apply not_alive_after_stop; tauto|].
     split; [apply not_acq_after_stop; tauto|apply not_locked_after_clear; tauto].
@@ -385,7 +395,7 @@ Lemma start_in_streaming fx cap pl s :
   run_call fx (CStart cap) pl s =
   {| r_res := Err E_IN_STREAMING; r_effs := []; r_nops := 0; r_atts := []; r_failed := None; r_cam := s |}.
 Proof.
-  destruct s as [oc os cx en tl aq lr tc bk]. cbn [loop_running]. intros ->. reflexivity.
+  destruct s as [oc os cx en tl aq lr tc bk tf]. cbn [loop_running]. intros ->. reflexivity.
 Qed.
 
 Lemma start_without_context cap pl s :
@@ -393,7 +403,7 @@ Lemma start_without_context cap pl s :
   run_call true (CStart cap) pl s =
   {| r_res := Err E_CTXT_MISSING; r_effs := []; r_nops := 0; r_atts := []; r_failed := None; r_cam := s |}.
 Proof.
-  destruct s as [oc os cx en tl aq lr tc bk]. cbn [loop_running ctxt]. intros -> ->. reflexivity.
+  destruct s as [oc os cx en tl aq lr tc bk tf]. cbn [loop_running ctxt]. intros -> ->. reflexivity.
 Qed.
 
 (* the pinned code enabled the stream on the device before noticing the missing context *)
@@ -402,7 +412,7 @@ Lemma start_without_context_v0 cap s :
   let r := run_call false (CStart cap) (fun _ => None) s in
   r_res r = Err E_CTXT_MISSING /\ r_effs r = [EnableStreaming] /\ stream_enabled (r_cam r) = true.
 Proof.
-  destruct s as [oc os cx en tl aq lr tc bk]. cbn [loop_running ctxt]. intros -> ->.
+  destruct s as [oc os cx en tl aq lr tc bk tf]. cbn [loop_running ctxt]. intros -> ->.
   repeat split.
 Qed.
 
@@ -422,7 +432,7 @@ Qed.
 Definition G (s : cam) : Prop :=
   (forall c, ctxt s = Some c -> n_tl c = true /\ n_start c = true /\ n_stop c = true) /\
   (loop_running s = false ->
-   stream_enabled s = false /\ tl_locked s = false /\ acquiring s = false) /\
+   stream_enabled s = false /\ tl_feat s = false /\ acquiring s = false) /\
   (loop_running s = true -> ctxt_loaded s = true).
 
 Ltac fin :=
@@ -441,7 +451,7 @@ Lemma call_G c plc s :
   G s -> good_call c -> (forall j, plc j = None) -> G (r_cam (run_call true c plc s)).
 Proof.
   unfold G. open_call c s;
-    cbn [ctxt loop_running stream_enabled tl_locked acquiring good_call x_parses x_tl x_start x_stop];
+    cbn [ctxt loop_running stream_enabled tl_feat acquiring good_call x_parses x_tl x_start x_stop];
     intros (G1 & G2 & G3) Hg Hpl;
     useG1 G1; crunch; fin.
 Qed.
@@ -451,7 +461,7 @@ Lemma close_G plc s :
   r_res (run_call true CClose plc s) = Ok (-1) /\ clean (r_cam (run_call true CClose plc s)).
 Proof.
   unfold G, clean. open_state s;
-    cbn [ctxt loop_running stream_enabled tl_locked acquiring];
+    cbn [ctxt loop_running stream_enabled tl_feat acquiring];
     intros (G1 & G2 & G3) Hpl;
     useG1 G1; crunch; fin.
 Qed.
@@ -505,7 +515,7 @@ Qed.
 (* a description lacking AcquisitionStop: outside the property (the description is assumed to
    define the three nodes); recorded to show the hypothesis of close_clean is needed *)
 Lemma close_needs_nodes :
-  let x := {| x_parses := true; x_tl := true; x_start := true; x_stop := false; x_copy := false |} in
+  let x := {| x_parses := true; x_tl := true; x_start := true; x_stop := false; x_copy := false; x_host := false; x_stop0 := false |} in
   ~ clean (final (run true no_failure ([COpen; CLoad x; CStart 3] ++ [CClose]))).
 Proof. cbv zeta. intros (_ & H & _). vm_compute in H. discriminate H. Qed.
 
@@ -532,11 +542,11 @@ Ltac fstep Hj Hlt :=
 Definition failure_stops_at fx c plc s j cls : Prop :=
   first_fail plc j cls ->
   (j < r_nops (run_call fx c (fun _ => None) s))%nat ->
-  exists e, nth_error (r_effs (run_call fx c (fun _ => None) s)) j = Some e /\
+  exists e, nth_error (r_atts (run_call fx c (fun _ => None) s)) j = Some e /\
     r_failed (run_call fx c plc s) = Some (e, cls) /\
     r_res (run_call fx c plc s) = Err (err_of e cls) /\
-    r_effs (run_call fx c plc s) = firstn j (r_effs (run_call fx c (fun _ => None) s)) /\
-    r_atts (run_call fx c plc s) = firstn j (r_effs (run_call fx c (fun _ => None) s)) ++ [e] /\
+    (exists q, r_effs (run_call fx c (fun _ => None) s) = r_effs (run_call fx c plc s) ++ e :: q) /\
+    r_atts (run_call fx c plc s) = firstn j (r_atts (run_call fx c (fun _ => None) s)) ++ [e] /\
     r_nops (run_call fx c plc s) = S j.
 
 Ltac fs_tac s j :=
@@ -544,7 +554,9 @@ Ltac fs_tac s j :=
   unfold failure_stops_at; intros [Hj Hlt]; open_state s; repeat mstep0;
     cbn -[Z.eqb Z.b2z firstn nth_error Nat.lt lt]; intros Hn;
     try (exfalso; lia); repeat (destruct j as [|j]; [|try (exfalso; lia)]);
-    repeat fstep Hj Hlt; cbn; eexists; repeat split; reflexivity.
+    repeat fstep Hj Hlt; cbn; eexists;
+    (split; [reflexivity|]); (split; [reflexivity|]); (split; [reflexivity|]);
+    (split; [eexists; reflexivity|]); split; reflexivity.
 
 (* call by call (the case analysis of start, stop and close is the bulk of it) *)
 Lemma failure_stops_start fx cap plc s j cls : failure_stops_at fx (CStart cap) plc s j cls.
@@ -557,16 +569,16 @@ Proof. fs_tac s j. Qed.
 Lemma failure_stops fx c plc s j cls :
   first_fail plc j cls ->
   (j < r_nops (run_call fx c (fun _ => None) s))%nat ->
-  exists e, nth_error (r_effs (run_call fx c (fun _ => None) s)) j = Some e /\
+  exists e, nth_error (r_atts (run_call fx c (fun _ => None) s)) j = Some e /\
     r_failed (run_call fx c plc s) = Some (e, cls) /\
     r_res (run_call fx c plc s) = Err (err_of e cls) /\
-    r_effs (run_call fx c plc s) = firstn j (r_effs (run_call fx c (fun _ => None) s)) /\
-    r_atts (run_call fx c plc s) = firstn j (r_effs (run_call fx c (fun _ => None) s)) ++ [e] /\
+    (exists q, r_effs (run_call fx c (fun _ => None) s) = r_effs (run_call fx c plc s) ++ e :: q) /\
+    r_atts (run_call fx c plc s) = firstn j (r_atts (run_call fx c (fun _ => None) s)) ++ [e] /\
     r_nops (run_call fx c plc s) = S j.
 Proof.
   change (failure_stops_at fx c plc s j cls).
-  destruct c as [|x|cap| | | |kb|kp vp];
-    [|destruct x as [xp xt xs xq xy]|apply failure_stops_start|apply failure_stops_stop|apply failure_stops_close| | |];
+  destruct c as [|x|cap| | | |kb|kp vp|uv];
+    [|destruct x as [xp xt xs xq xy xh xz]|apply failure_stops_start|apply failure_stops_stop|apply failure_stops_close| | | |];
     fs_tac s j.
 Qed.
 
@@ -618,11 +630,15 @@ Lemma start_cap0 fx plc s c0 :
   (forall j, plc j = None) ->
   r_res (run_call fx (CStart 0) plc s) = Panic /\
   r_effs (run_call fx (CStart 0) plc s) =
-    [EnableStreaming; SetTLParamsLocked true] ++ (if n_copy c0 then [CopyTL true] else []) ++ [AcqStart] /\
+    EnableStreaming ::
+    match h_tl c0 with
+    | Some _ => [HostTL true]
+    | None => SetTLParamsLocked true :: (if n_copy c0 then [CopyTL true] else [])
+    end ++ [AcqStart] /\
   loop_running (r_cam (run_call fx (CStart 0) plc s)) = false.
 Proof.
-  destruct s as [oc os cx en tl aq lr tc bk]. destruct c0 as [nt ns np ny ct cs cp cy cb].
-  cbn [loop_running ctxt n_tl n_start n_copy]. intros -> -> -> -> H.
+  destruct s as [oc os cx en tl aq lr tc bk tf]. destruct c0 as [nt ns np ny nz ct cs cp cy cb ht].
+  cbn [loop_running ctxt n_tl n_start n_copy h_tl]. intros -> -> -> -> H.
   unfold run_call.
   cbv [call_body cam_start params_ctxt bindM get need ret fail panic do_op emit ctxt_loaded].
   crunch; try congruence; repeat split.
@@ -665,13 +681,18 @@ Proof.
 Qed.
 
 (* non-vacuity: the intended session, its trace and its final state *)
-Definition xml_good : xmlv := {| x_parses := true; x_tl := true; x_start := true; x_stop := true; x_copy := false |}.
-Definition xml_copy : xmlv := {| x_parses := true; x_tl := true; x_start := true; x_stop := true; x_copy := true |}.
+Definition xml_good : xmlv := {| x_parses := true; x_tl := true; x_start := true; x_stop := true; x_copy := false;
+                                 x_host := false; x_stop0 := false |}.
+Definition xml_copy : xmlv := {| x_parses := true; x_tl := true; x_start := true; x_stop := true; x_copy := true;
+                                 x_host := false; x_stop0 := false |}.
+(* TLParamsLocked on the host side, AcquisitionStop with CommandValue 0 *)
+Definition xml_host : xmlv := {| x_parses := true; x_tl := true; x_start := true; x_stop := true; x_copy := false;
+                                 x_host := true; x_stop0 := true |}.
 
 Example session_example :
   let rs := run true no_failure [COpen; CLoad xml_good; CStart 3; CParams; CStop; CClose] in
   trace_of rs =
-    [CtrlOpen; StrmOpen; GenApiFetch; LoadCtxt true true true false;
+    [CtrlOpen; StrmOpen; GenApiFetch; LoadCtxt true true true false false false;
      EnableStreaming; SetTLParamsLocked true; AcqStart; LoopStart;
      LoopStop; AcqStop; SetTLParamsLocked false; DisableStreaming;
      CtrlClose; StrmClose; ClearCache] /\
@@ -683,7 +704,7 @@ Proof. vm_compute. repeat split. Qed.
 Example failure_example :
   let rs := run true (plan_of [(2%nat, 2%nat, 1)]) [COpen; CLoad xml_good; CStart 3] in
   map r_res rs = [Ok (-1); Ok (-1); Err (E_GENAPI_DEVICE + 1)] /\
-  trace_of rs = [CtrlOpen; StrmOpen; GenApiFetch; LoadCtxt true true true false;
+  trace_of rs = [CtrlOpen; StrmOpen; GenApiFetch; LoadCtxt true true true false false false;
                  EnableStreaming; SetTLParamsLocked true] /\
   loop_running (final rs) = false.
 Proof. vm_compute. repeat split. Qed.
@@ -710,9 +731,9 @@ Proof.
 Qed.
 
 Lemma params_value_call fx plc s v :
-  coh s = true -> r_res (run_call fx CParams plc s) = Ok v -> v = Z.b2z (tl_locked s).
+  coh s = true -> r_res (run_call fx CParams plc s) = Ok v -> v = Z.b2z (tl_value s).
 Proof.
-  unfold coh. open_state s; cbn [ctxt c_tl tl_locked]; crunch; intros H E;
+  unfold coh, tl_value. open_state s; cbn [ctxt c_tl h_tl tl_locked]; crunch; intros H E;
     try discriminate E; apply Ok_inj in E; subst v; try reflexivity.
   apply eqb_prop in H. subst. reflexivity.
 Qed.
@@ -721,7 +742,7 @@ Qed.
    cache never holds a stale value, whatever failed before *)
 Theorem params_value fx pl cs plc v :
   r_res (run_call fx CParams plc (final (run fx pl cs))) = Ok v ->
-  v = Z.b2z (tl_locked (final (run fx pl cs))).
+  v = Z.b2z (tl_value (final (run fx pl cs))).
 Proof.
   apply params_value_call. apply (run_coh fx pl cs 0%nat cam0). reflexivity.
 Qed.
@@ -932,7 +953,7 @@ Qed.
 Example copy_example :
   let cs := [COpen; CLoad xml_copy; CStart 3; CStop; CClose] in
   trace_of (run true no_failure cs) =
-    [CtrlOpen; StrmOpen; GenApiFetch; LoadCtxt true true true true;
+    [CtrlOpen; StrmOpen; GenApiFetch; LoadCtxt true true true true false false;
      EnableStreaming; SetTLParamsLocked true; CopyTL true; AcqStart; LoopStart;
      LoopStop; AcqStop; SetTLParamsLocked false; CopyTL false; DisableStreaming;
      CtrlClose; StrmClose; ClearCache] /\
@@ -951,27 +972,28 @@ Proof. vm_compute. repeat split; reflexivity. Qed.
 (* clean close with the mirror: when every description loaded in the session declares the
    <pValueCopy>, the mirror register is 0 after a clean close as well *)
 Definition copy_call (c : call) : Prop :=
-  match c with CLoad x => x_parses x = true -> x_copy x = true | _ => True end.
+  match c with CLoad x => x_parses x = true -> x_copy x = true /\ x_host x = false | _ => True end.
 
 Definition GC (s : cam) : Prop :=
-  G s /\ (forall c, ctxt s = Some c -> n_copy c = true) /\ (loop_running s = false -> tl_copy s = false).
+  G s /\ (forall c, ctxt s = Some c -> n_copy c = true /\ h_tl c = None) /\
+  (loop_running s = false -> tl_copy s = false).
 
 Lemma call_GC c plc s :
   GC s -> good_call c -> copy_call c -> (forall j, plc j = None) -> GC (r_cam (run_call true c plc s)).
 Proof.
   unfold GC, G. open_call c s;
-    cbn [ctxt loop_running stream_enabled tl_locked acquiring tl_copy good_call copy_call x_parses x_tl x_start x_stop x_copy];
+    cbn [ctxt loop_running stream_enabled tl_feat acquiring tl_copy good_call copy_call x_parses x_tl x_start x_stop x_copy x_host];
     intros ((G1 & G2 & G3) & G4 & G5) Hg Hc Hpl;
-    useG1 G1; try (pose proof (G4 _ eq_refl) as K4; cbn [n_copy] in K4; subst ny); crunch; fin.
+    useG1 G1; try (pose proof (G4 _ eq_refl) as K4; cbn [n_copy h_tl] in K4; destruct K4 as [-> ->]); crunch; fin.
 Qed.
 
 Lemma close_GC plc s :
   GC s -> (forall j, plc j = None) -> tl_copy (r_cam (run_call true CClose plc s)) = false.
 Proof.
   unfold GC, G. open_state s;
-    cbn [ctxt loop_running stream_enabled tl_locked acquiring tl_copy];
+    cbn [ctxt loop_running stream_enabled tl_feat acquiring tl_copy];
     intros ((G1 & G2 & G3) & G4 & G5) Hpl;
-    useG1 G1; try (pose proof (G4 _ eq_refl) as K4; cbn [n_copy] in K4; subst ny); crunch; fin.
+    useG1 G1; try (pose proof (G4 _ eq_refl) as K4; cbn [n_copy h_tl] in K4; destruct K4 as [-> ->]); crunch; fin.
 Qed.
 
 Lemma run_GC pl cs : forall i s,
@@ -988,6 +1010,61 @@ Qed.
 Lemma GC0 : GC cam0.
 Proof. split; [exact G0|]. split; [intros c H; discriminate H|reflexivity]. Qed.
 
+(* TLParamsLocked backed by its register in every description loaded: the register holds what
+   TLParamsLocked was given last -- under every failure plan *)
+Definition reg_call (c : call) : Prop :=
+  match c with CLoad x => x_parses x = true -> x_host x = false | _ => True end.
+
+Definition RG (s : cam) : Prop :=
+  (forall c, ctxt s = Some c -> h_tl c = None) /\ tl_locked s = tl_feat s.
+
+Lemma call_RG fx c plc s : RG s -> reg_call c -> RG (r_cam (run_call fx c plc s)).
+Proof.
+  unfold RG. open_call c s; cbn [ctxt tl_locked tl_feat reg_call x_parses x_host];
+    intros (R1 & R2) Hc;
+    try (pose proof (R1 _ eq_refl) as K1; cbn [h_tl] in K1; subst ht); crunch; fin.
+Qed.
+
+Lemma run_RG fx pl cs : forall i s,
+  RG s -> Forall reg_call cs -> RG (final_from s (run_from fx pl i s cs)).
+Proof.
+  induction cs as [|c cs IH]; intros i s Hs Hc; cbn [run_from].
+  - exact Hs.
+  - rewrite final_from_cons. inversion Hc; subst. apply IH; [|assumption].
+    apply call_RG; assumption.
+Qed.
+
+Theorem register_is_feature fx pl cs :
+  Forall reg_call cs -> tl_locked (final (run fx pl cs)) = tl_feat (final (run fx pl cs)).
+Proof.
+  intros Hc. apply (run_RG fx pl cs 0%nat cam0); [|exact Hc].
+  split; [intros c H; discriminate H|reflexivity].
+Qed.
+
+Theorem close_clean_reg pl cs :
+  (forall i j, pl i j = None) -> Forall good_call cs -> Forall reg_call cs ->
+  tl_locked (final (run true pl (cs ++ [CClose]))) = false.
+Proof.
+  intros Hpl Hg Hc. rewrite register_is_feature.
+  - destruct (close_clean pl cs Hpl Hg) as [(_ & H & _) _]. exact H.
+  - apply Forall_app. split; [exact Hc|]. constructor; [exact I|constructor].
+Qed.
+
+(* non-vacuity: TLParamsLocked on the host side, AcquisitionStop with CommandValue 0: the variable is
+   written without a device access between EnableStreaming and AcquisitionStart *)
+Example host_example :
+  let rs := run true no_failure [COpen; CLoad xml_host; CStart 3; CParams; CStop; CParams; CClose] in
+  trace_of rs =
+    [CtrlOpen; StrmOpen; GenApiFetch; LoadCtxt true true true false true true;
+     EnableStreaming; HostTL true; AcqStart; LoopStart;
+     LoopStop; AcqStop; HostTL false; DisableStreaming;
+     CtrlClose; StrmClose; ClearCache] /\
+  map r_res rs = [Ok (-1); Ok (-1); Ok (-1); Ok 1; Ok (-1); Ok 0; Ok (-1)] /\
+  map r_atts rs = [[CtrlOpen; StrmOpen]; [GenApiFetch]; [EnableStreaming; AcqStart; LoopStart]; [];
+                   [LoopStop; AcqStop; DisableStreaming]; []; [CtrlClose; StrmClose]] /\
+  clean (final rs).
+Proof. vm_compute. repeat split; reflexivity. Qed.
+
 Theorem close_clean_copy pl cs :
   (forall i j, pl i j = None) -> Forall good_call cs -> Forall copy_call cs ->
   tl_copy (final (run true pl (cs ++ [CClose]))) = false.
@@ -995,4 +1072,49 @@ Proof.
   intros Hpl Hg Hc. rewrite run_snoc, final_snoc.
   pose proof (run_GC pl cs 0%nat cam0 Hpl GC0 Hg Hc) as HG. fold (run true pl cs) in HG.
   apply close_GC; [exact HG|apply Hpl].
+Qed.
+
+(* ---------------------------------------------------------------------- *)
+(* no device operation fails => open / stop / close return Ok and start is refused only for the two
+   documented reasons -- whatever the device does to its own memory (CPoke: also the availability
+   registers some descriptions attach to the commands, which execute() does not consult) *)
+Lemma call_G_res c plc s :
+  G s -> good_call c -> (forall j, plc j = None) ->
+  match c with
+  | COpen | CStop | CClose | CPoke _ _ => r_res (run_call true c plc s) = Ok (-1)
+  | CStart _ =>
+      r_res (run_call true c plc s) = Ok (-1) \/
+      (loop_running s = true /\ r_res (run_call true c plc s) = Err E_IN_STREAMING) \/
+      (loop_running s = false /\ ctxt s = None /\ r_res (run_call true c plc s) = Err E_CTXT_MISSING)
+  | _ => True
+  end.
+Proof.
+  unfold G. open_call c s;
+    cbn [ctxt loop_running stream_enabled tl_feat acquiring good_call x_parses x_tl x_start x_stop];
+    intros (G1 & G2 & G3) Hg Hpl; useG1 G1; crunch;
+    try exact I; try reflexivity; try congruence;
+    first [ left; reflexivity
+          | right; left; split; reflexivity
+          | right; right; repeat split; reflexivity
+          | exfalso; discriminate (G3 eq_refl) ].
+Qed.
+
+Theorem no_failure_no_error pl cs c :
+  (forall i j, pl i j = None) -> Forall good_call cs -> good_call c ->
+  run true pl (cs ++ [c]) = run true pl cs ++ [run_call true c (pl (length cs)) (final (run true pl cs))] /\
+  match c with
+  | COpen | CStop | CClose | CPoke _ _ =>
+      r_res (run_call true c (pl (length cs)) (final (run true pl cs))) = Ok (-1)
+  | CStart _ =>
+      r_res (run_call true c (pl (length cs)) (final (run true pl cs))) = Ok (-1) \/
+      (loop_running (final (run true pl cs)) = true /\
+       r_res (run_call true c (pl (length cs)) (final (run true pl cs))) = Err E_IN_STREAMING) \/
+      (loop_running (final (run true pl cs)) = false /\ ctxt (final (run true pl cs)) = None /\
+       r_res (run_call true c (pl (length cs)) (final (run true pl cs))) = Err E_CTXT_MISSING)
+  | _ => True
+  end.
+Proof.
+  intros Hpl Hg Hc. split; [apply run_snoc|].
+  apply call_G_res; [|exact Hc|apply Hpl].
+  apply (run_G pl cs 0%nat cam0 Hpl G0 Hg).
 Qed.
